@@ -127,6 +127,14 @@ class Ctx:
             sys.stderr.write('ANALYSIS-BROKEN property=%s %s\n' % (self.pid, broken))
             if not real:
                 return 2
+        if not os.environ.get('COCLS_NO_EVIDENCE'):
+            # replay files of an earlier run of this check are stale now
+            import glob
+            for old_ in glob.glob(os.path.join(VERIF, 'evidence', 'replay', self.pid + '-*.json')):
+                try:
+                    os.remove(old_)
+                except OSError:
+                    pass
         if real:
             rd = os.path.join(VERIF, 'evidence', 'replay')
             os.makedirs(rd, exist_ok=True)
